@@ -59,12 +59,13 @@ SEARCHES = {
                   "random create/delete/publish histories over 2 topic names x 3 subscription names, incl. racing creates and held topic handles"),
     "order":     (["order", 40], ["order", 400], "2-4 concurrent publishers x 3 messages on a 2-thread runtime, 2 subscriptions"),
     "names":     (["names", 3], ["names", 5], "all strings = stem + suffix over {p,t,/,s,e-acute,-} up to the given suffix length, 24 stems"),
+    "rpc":       (["rpc"], ["rpc"], "6 scripted gRPC scenarios over a unix socket: pull limits and waiting, batch parsing, in-stream modack, namespace status codes, malformed fields, list walks and content identity"),
     "paging":    (["paging", 7], ["paging", 12], "page walks over 0,1,2,n resources in 2 projects, 11 page sizes x 6 start offsets, 3 list operations"),
 }
 BY_PROP = {
-    "C01": ["history", "lifecycle"], "C02": ["history"], "C03": ["history"], "C04": ["history"], "C05": ["history"],
-    "C08": ["order", "history"], "C09": ["lifecycle"], "C10": ["lifecycle"], "C11": ["lifecycle"],
-    "C13": ["paging", "lifecycle"], "C15": ["history"], "C17": ["names"], "C18": ["names"],
+    "C01": ["history", "lifecycle"], "C02": ["history", "rpc"], "C03": ["history"], "C04": ["history", "rpc"], "C05": ["history", "rpc"],
+    "C08": ["order", "history"], "C09": ["lifecycle", "rpc"], "C10": ["lifecycle", "rpc"], "C11": ["lifecycle", "rpc"],
+    "C13": ["paging", "lifecycle", "rpc"], "C15": ["history", "rpc"], "C17": ["names", "paging", "rpc"], "C18": ["names"],
 }
 
 
@@ -84,7 +85,7 @@ def standin(prop, HERE, REPO, tier="quick", seed=0):
         args = [str(a).replace("{seed}", str(seed + 1)) for a in (th if tier == "thorough" else q)]
         w, out = _run(binary, args, 600 if tier == "thorough" else 120)
         runs.append({"search": " ".join(args), "bound": bound, "result": ("WITNESS property=%s" % w.get("property")) if w else out})
-        if w and w.get("property") == prop and witness is None:
+        if w and (w.get("property") == prop or prop in w.get("also", [])) and witness is None:
             witness = w
         elif w and other is None:
             other = w
@@ -124,6 +125,8 @@ def replay(path, HERE, REPO):
             got, out = _run(binary, ["run-lifecycle", json.dumps(w["ops"])], 120)
         elif w.get("kind") == "order":
             got, out = _run(binary, ["order", 200], 300)
+        elif w.get("kind") == "rpc":
+            got, out = _run(binary, ["rpc"], 300)
         elif w.get("kind", "").startswith("name"):
             got, out = _run(binary, ["names", 4], 120)
         else:
